@@ -23,7 +23,7 @@ type c05Cfg struct {
 	reject   bool          // unsupported values offered to Insert/Replace
 	maxLen   int
 	depth    int
-	scratchN int // how many of the registers receive derived results (last ones)
+	scratchN int  // how many of the registers receive derived results (last ones)
 	derived  bool // a register may be created as a user type embedding List (derived structure)
 }
 
@@ -585,7 +585,6 @@ func runC05(c *ev.Ctx) {
 		c.Set("scenario/"+cfg.name, map[string]interface{}{"states": res.States, "depth_completed": res.DepthCompleted, "depth_bound": cfg.depth, "state_space_closed": res.Exhausted})
 	}
 }
-
 
 // focusedListHistories runs the list-program search with only one observer section judged; used by the
 // property-specific checks (C16 FormatString, C17 Sort, C18 aggregates) so that results which depend on the
